@@ -90,7 +90,7 @@ GraphDependency::GraphDependency(GraphDependency&& other) noexcept
       _establish_value(other._establish_value),
       _mutable(other._mutable),
       _waiting_num(other._waiting_num.load()),
-      _established(other._established),
+      _established(other._established.load()),
       _ready(other._ready),
       _essential(other._essential) {
   ::std::swap(_source, other._source);
@@ -101,7 +101,9 @@ GraphDependency::GraphDependency(GraphDependency&& other) noexcept
   auto tmp = _waiting_num.load();
   _waiting_num.store(other._waiting_num.load());
   other._waiting_num.store(tmp);
-  ::std::swap(_established, other._established);
+  auto tmp_established = _established.load();
+  _established.store(other._established.load());
+  other._established.store(tmp_established);
   ::std::swap(_ready, other._ready);
   ::std::swap(_essential, other._essential);
 }
